@@ -259,6 +259,13 @@ func main() {
 				return p == "encoding/json" || p == "net/http" || p == "net/textproto" || p == "mime" || p == "log/slog" || p == "go/types"
 			},
 		}
+		if d := os.Getenv("SYMGO_DUMP"); d != "" {
+			for _, name := range strings.Split(d, ",") {
+				if f := pkg.Func(name); f != nil {
+					f.WriteTo(os.Stderr)
+				}
+			}
+		}
 		rep, err := sym.Explore(cfg)
 		if err != nil {
 			res.err = err.Error()
